@@ -73,8 +73,15 @@ Theorem C01_forced : forall o h w s scr,
                    (In (i, r, c) (places scr) \/ In (i, r, c) (places (show o h w s))).
 Proof. exact forced_repaint. Qed.
 
-Theorem C01_clear_forces : forall st, snd (rclear st) = rnew (rh st) (rw st) true.
-Proof. exact rclear_state. Qed.
+(* the frame-dropping path of Terminal::run_render: the handler has drawn into the surface, then
+   clear(), then frame() — on a terminal in an arbitrary state (its pending output was dropped) the
+   frame shows what the handler drew *)
+Theorem C01_clear_then_frame : forall o h w st scr,
+  cw o space = 1 -> rh st = h -> rw st = w -> good_surface o h w (front st) -> scr_ok scr h w ->
+  let scr1 := exec_list o scr (fst (rclear st)) in
+  let scr' := exec_list o scr1 (fst (frame o (snd (rclear st)))) in
+  sgrid scr' = sgrid (show o h w (front st)) /\ err scr' = false.
+Proof. exact clear_then_frame. Qed.
 
 (* known class Overlap: with two multi-cell objects on a common cell the statement is false
    (1x3 terminal: a 2x3 image with face 2 at column 0 and a 1x1 image at column 1; then the small
